@@ -131,3 +131,89 @@ contract('gnpy.core.elements.Transceiver.update_snr', props=['C13', 'C01'], vara
          modifies=[('self.snr_01nm', vec_len('len(self.raw_snr)')), ('self.osnr_ase_01nm', vec_len('len(self.raw_snr)')),
                    ('self.snr', vec_len('len(self.raw_snr)')), ('self.osnr_ase', vec_len('len(self.raw_snr)'))],
          note='number of contributions bounded by 3 in this contract (tx OSNR + two add/drop OSNR); the loop is a fold')
+
+# ---------------------------------------------------------------- Edfa noise figure (C04)
+NF_MODEL = obj('Model_vg', nf1=real(), nf2=real(), delta_p=real(), nf0=real(), nf_coef=lst(real(), real(), real(), real()))
+
+
+def EDFA(type_def='variable_gain', **more):
+    params = obj('EdfaParams', type_def=const(type_def), nf_model=NF_MODEL, nf_fit_coeff=lst(real(), real(), real(), real()),
+                 gain_min=real(), gain_flatmax=real(), p_max=real(), f_min=real(), f_max=real(),
+                 dgt=vec('nd'), gain_ripple=vec('ng'), nf_ripple=vec('nr'), pmd=real(), pdl=real(),
+                 bands=lst(dct(f_min=real(), f_max=real())), type_variety=string(),
+                 preamp_type_def=const('variable_gain'), preamp_nf_model=NF_MODEL, preamp_nf_fit_coeff=const(None),
+                 preamp_gain_min=real(), preamp_gain_flatmax=real(),
+                 booster_type_def=const('variable_gain'), booster_nf_model=NF_MODEL, booster_nf_fit_coeff=const(None),
+                 booster_gain_min=real(), booster_gain_flatmax=real())
+    f = dict(uid=string(), params=params, effective_gain=real(), in_voa=opt(real()), out_voa=real(),
+             tilt_target=real(), delta_p=opt(real()), pin_db=real(), nch=integer(), slot_width=real(),
+             interpol_dgt=vec('n'), interpol_gain_ripple=vec('n'), interpol_nf_ripple=vec('n'),
+             channel_freq=vec('n'), nf=vec('n'), gprofile=vec('n'), pout_db=real(), att_in=real(),
+             pch_out_dbm=opt(vec('n')), propagated_labels=vec('n', 'str'), passive=const(False))
+    f.update(more)
+    return obj('Edfa', **f)
+
+
+SPEC_NF = '''
+def NFVG(m, gmin, gmax, g):
+    # documented min/max-NF model: two coils nf1, nf2, first-stage gain g - delta_p - (gmax - g) clipped at gmax,
+    # and below gmin the amplifier is padded: NF grows dB for dB
+    pad = gmin - g if gmin > g else 0
+    ge = g + pad
+    dg = gmax - ge if gmax > ge else 0
+    return spec_lin2db(spec_db2lin(m.nf1) + spec_db2lin(m.nf2) / spec_db2lin(ge - m.delta_p - dg)) + pad
+'''
+
+contract('gnpy.core.elements.Edfa._nf', name='gnpy.core.elements.Edfa._nf[variable_gain]', props=['C04'],
+         params={'self': EDFA(), 'type_def': const('variable_gain'), 'nf_model': NF_MODEL, 'nf_fit_coeff': const(None),
+                 'gain_min': real(), 'gain_flatmax': real(), 'gain_target': real()}, spec=SPEC_NF,
+         ensures=[('model', 'result[0] == NFVG(nf_model, gain_min, gain_flatmax, gain_target)'),
+                  ('pad', 'result[1] == (gain_min - gain_target if gain_min > gain_target else 0)')],
+         use_at_calls=False, modifies=[])
+
+contract('gnpy.core.elements.Edfa._nf', name='gnpy.core.elements.Edfa._nf[fixed_gain]', props=['C04'],
+         params={'self': EDFA(), 'type_def': const('fixed_gain'), 'nf_model': NF_MODEL, 'nf_fit_coeff': const(None),
+                 'gain_min': real(), 'gain_flatmax': real(), 'gain_target': real()},
+         ensures=[('model', 'result[0] == nf_model.nf0 + (gain_min - gain_target if gain_min > gain_target else 0)')],
+         use_at_calls=False, modifies=[])
+
+contract('gnpy.core.elements.Edfa._nf', name='gnpy.core.elements.Edfa._nf[unknown type]', props=['C04'],
+         params={'self': EDFA(), 'type_def': const('no_such_model'), 'nf_model': NF_MODEL, 'nf_fit_coeff': const(None),
+                 'gain_min': real(), 'gain_flatmax': real(), 'gain_target': real()},
+         raises={'EquipmentConfigError': 'True'}, ensures=[], use_at_calls=False, modifies=[])
+
+# relational laws of the min/max-NF model, on the real _nf (two runs of the real code in one harness)
+H_NF2 = '''
+def nf_two_gains(amp, nf_model, gain_min, gain_flatmax, g1, g2):
+    a = amp._nf('variable_gain', nf_model, None, gain_min, gain_flatmax, g1)
+    b = amp._nf('variable_gain', nf_model, None, gain_min, gain_flatmax, g2)
+    return (a[0], b[0])
+'''
+contract('harness:nf_two_gains', harness=H_NF2, module='gnpy.core.elements', props=['C04'],
+         params={'amp': EDFA(), 'nf_model': NF_MODEL, 'gain_min': real(), 'gain_flatmax': real(), 'g1': real(), 'g2': real()},
+         requires=[('ordered', 'g1 <= g2'), ('range', 'gain_min <= gain_flatmax')],
+         ensures=[('nf_non_increasing_with_gain', 'result[0] >= result[1]'),
+                  ('dB_for_dB_below_min_gain', 'implies(g2 == gain_min, result[0] == result[1] + (gain_min - g1))')],
+         modifies=[])
+
+# nf1/nf2/delta_p derived from the datasheet (nf_min at max flat gain, nf_max at min gain) reproduce them through the
+# real _nf: three real functions in one harness
+H_NF_END = '''
+def nf_endpoints(amp, type_variety, gain_min, gain_max, nf_min, nf_max):
+    from gnpy.tools.json_io import Model_vg
+    from gnpy.core.science_utils import estimate_nf_model
+    nf1, nf2, delta_p = estimate_nf_model(type_variety, gain_min, gain_max, nf_min, nf_max)
+    m = Model_vg(nf1, nf2, delta_p, nf_min, nf_max)
+    at_max = amp._nf('variable_gain', m, None, gain_min, gain_max, gain_max)
+    at_min = amp._nf('variable_gain', m, None, gain_min, gain_max, gain_min)
+    return (at_max[0], at_min[0], nf1, nf2, delta_p)
+'''
+contract('harness:nf_endpoints', harness=H_NF_END, module='gnpy.core.elements', props=['C04'],
+         params={'amp': EDFA(), 'type_variety': string(), 'gain_min': real(), 'gain_max': real(), 'nf_min': real(),
+                 'nf_max': real()},
+         requires=[('range', 'gain_min < gain_max')],
+         raises={'EquipmentConfigError': None},
+         ensures=[('nf_min_at_max_flat_gain', '-0.01 <= result[0] - nf_min and result[0] - nf_min <= 0.01'),
+                  ('nf_max_at_min_gain', '-0.01 <= result[1] - nf_max and result[1] - nf_max <= 0.01'),
+                  ('first_coil_at_least_4dB', 'result[2] >= 4')],
+         modifies=[])
